@@ -127,6 +127,30 @@ def _zstd_content_size(data: bytes) -> int | None:
     return int(size)
 
 
+def _zstd_frame_complete(data: bytes) -> bool:
+    """Return True iff *data* holds a whole zstd frame (last block and checksum present).
+
+    ``stream_reader`` does not complain when its input simply stops, so a
+    truncated size-less frame would otherwise "decode" to a prefix of the
+    plaintext.  Walking the block headers (RFC 8878 section 3.1.1.2) costs a
+    few bytes per 128 KiB block and decompresses nothing.
+    """
+    import zstandard
+
+    pos = zstandard.frame_header_size(data)
+    while True:
+        if pos + 3 > len(data):
+            return False
+        header = int.from_bytes(data[pos : pos + 3], "little")
+        last, block_type, size = header & 1, (header >> 1) & 3, header >> 3
+        pos += 3 + (1 if block_type == 1 else size)  # an RLE block stores one byte
+        if last:
+            break
+    if zstandard.get_frame_parameters(data).has_checksum:
+        pos += 4
+    return pos <= len(data)
+
+
 def _decompress_body_zstd(data: bytes, *, max_output_size: int | None = None) -> bytes:
     """Decompress zstd-compressed *data* with optional output cap.
 
@@ -135,6 +159,10 @@ def _decompress_body_zstd(data: bytes, *, max_output_size: int | None = None) ->
     import zstandard
 
     declared = _zstd_content_size(data)
+    # The one-shot API used for size-declaring frames rejects a truncated
+    # frame by itself; the streaming reader used for the others does not.
+    if declared is None and not _zstd_frame_complete(data):
+        raise DecompressionError("zstd frame ended before its last block (truncated body)")
 
     if max_output_size is None:
         # No declared size => a streaming frame; the one-shot API refuses those.
